@@ -69,12 +69,19 @@ func runC19(c *core.Ctx) {
 			}
 		}
 		isCheck := func(cl *ssa.Call) bool { _, ok := checks[cl]; return ok }
+		errWrappers := map[*ssa.Function]bool{}
 		g := eng.NamedGuard{Name: "installed-check reports not-installed", G: func(cd ir.Cond) (bool, bool) {
 			// nil test of a non-error result
 			if x, neq, ok := ir.NilCmp(cd.V); ok {
 				cl, _ := ir.CallOf(x)
 				if cl != nil && isCheck(cl) {
 					if ir.IsErrorType(x.Type()) {
+						if w := cl.Common().StaticCallee(); w != nil && len(w.Blocks) > 0 && w.Signature.Results().Len() == 1 && readsOnly(c, w) {
+							// a checker that answers with an error only: nil means "not installed yet"
+							// (proved below: it returns nil only after an inner read returned nil)
+							errWrappers[w] = true
+							return true, !neq
+						}
 						// err != nil edge counts as not-installed exit (leads to an error return or absent record)
 						return true, neq
 					}
@@ -116,6 +123,13 @@ func runC19(c *core.Ctx) {
 			}
 		}
 		c.Decide(markerOK, "C19.marker-always-written", fn, "the key the installed-check reads is written by every successful SyncGenesisHeader", c.P.Rel(fn.Pos()), markerWhy)
+		// error-only wrappers
+		for w := range errWrappers {
+			if !provedWrappers[w] {
+				provedWrappers[w] = true
+				proveErrWrapper(c, w)
+			}
+		}
 		// boolean wrappers
 		for k := range checks {
 			cl, ok := k.(*ssa.Call)
@@ -197,9 +211,21 @@ func proveBoolWrapper(c *core.Ctx, w *ssa.Function) {
 		c.Hold("C19.wrapper", w, "returns false only with an error", c.P.Rel(w.Pos()), "")
 		return
 	}
-	g := eng.NamedGuard{Name: "inner read returned nil", G: func(cd ir.Cond) (bool, bool) {
+	_ = token.EQL
+	eng.Dominates(c, "C19.wrapper", w, innerReadNil(c, w, true), sinks, "return (false, nil)", nil)
+}
+
+// innerReadNil: the guard "a storage read inside w returned nil".  For a wrapper that
+// swallows the read's error (errAlso) a failed read counts as "nothing installed" too, as it
+// does when the same test is written inline in SyncGenesisHeader.
+func innerReadNil(c *core.Ctx, w *ssa.Function, errAlso bool) eng.NamedGuard {
+	return eng.NamedGuard{Name: "inner read returned nil", G: func(cd ir.Cond) (bool, bool) {
 		x, neq, ok := ir.NilCmp(cd.V)
-		if !ok || ir.IsErrorType(x.Type()) {
+		if !ok {
+			return false, false
+		}
+		isErr := ir.IsErrorType(x.Type())
+		if isErr && !errAlso {
 			return false, false
 		}
 		cl, _ := ir.CallOf(x)
@@ -213,11 +239,40 @@ func proveBoolWrapper(c *core.Ctx, w *ssa.Function) {
 		}
 		for _, s := range sites {
 			if s.Op == "Get" && s.TopCall == ssa.CallInstruction(cl) {
+				if isErr {
+					return true, neq
+				}
 				return true, !neq
 			}
 		}
 		return false, false
 	}}
-	_ = token.EQL
-	eng.Dominates(c, "C19.wrapper", w, g, sinks, "return (false, nil)", nil)
+}
+
+// proveErrWrapper: w (single error result) returns nil only when an inner read returned nil.
+func proveErrWrapper(c *core.Ctx, w *ssa.Function) {
+	sinks := ir.SuccessSinks(w)
+	if len(sinks) == 0 {
+		c.Broken("C19.wrapper", w, "nil returns of the installed-check", c.P.Rel(w.Pos()), "none")
+		return
+	}
+	eng.Dominates(c, "C19.wrapper", w, innerReadNil(c, w, false), sinks, "return nil (not installed)", nil)
+}
+
+// readsOnly: w (with its callees, depth 3) reads storage and never writes it.
+func readsOnly(c *core.Ctx, w *ssa.Function) bool {
+	sites, err := eng.KeySitesIn(c.P, w, 3)
+	if err != nil {
+		return false
+	}
+	gets := 0
+	for _, s := range sites {
+		switch s.Op {
+		case "Get":
+			gets++
+		case "Put", "Delete":
+			return false
+		}
+	}
+	return gets > 0
 }
